@@ -121,7 +121,7 @@ Definition proved_dom (k : kind) (op : cmpop) (r : ref) : bool :=
   | RScalar v => proved_scalar k op v
   | RSeq _ => false
   | RSet _ | RPred _ => eq_or_ne op
-  | RType t => eq_or_ne op && negb (match k, t with KInt, TObject => true | _, _ => false end)
+  | RType t => eq_or_ne op
   end.
 
 Lemma is_nan_iter k c : cell_of k c = true ->
@@ -205,7 +205,7 @@ Proof.
         assert (Hok : np_scalar_ok (PInt z) = true).
         { unfold int64 in Hd. unfold np_scalar_ok. apply andb_prop in Hd as [H1 H2]. rewrite H1. cbn.
           apply Z.ltb_lt in H2. apply Z.ltb_lt. lia. }
-        unfold np_isnan, np_isinf. rewrite Hok. cbn [bind]. unfold v_where, v_cmp. rewrite where_from_map.
+        cbn [b_isnan b_isinf bind]. unfold v_where, v_cmp. rewrite where_from_map.
         apply f_equal, positions_sat_ext. intros i c Hin. cbn [sat_at]. rewrite Hss.
         pose proof (cells_in _ _ c Hc Hin) as Hcc. destruct c as [a|g|s|]; try discriminate Hcc.
         unfold np_cmp_cell, py_cmp. cbn [val_num np_operand pyv_num]. apply cmp_holds_num.
@@ -229,7 +229,6 @@ Proof.
       rewrite Hp. reflexivity.
   - (* type *)
     assert (Hk : k <> KInt) by (intros ->; apply (Hint eq_refl)).
-    apply andb_prop in Hd as [Hd _].
     assert (Hop : op = CEq \/ op = CNe) by (destruct op; try discriminate Hd; auto).
     unfold base_compare. cbn [inj_ref]. unfold k_compare_dispatch. cbn -[keep_where k_compare_type].
     destruct Hop as [-> | ->]; cbn -[keep_where].
@@ -286,8 +285,8 @@ Proof.
     + change (r_is_type (inj_ref (RPred f))) with false. cbv iota.
       rewrite (issequence_nonseq _ (RPred f) I). cbn [bind].
       rewrite Hgen by (intros _; exact I). reflexivity.
-    + cbn [inj_ref r_is_type r_is_type_int]. destruct (int_cells_type cells t Hc) as [E _]. rewrite E.
-      destruct t; try reflexivity. discriminate Hd.
+    + cbn [inj_ref r_is_type r_type_accepts_int]. destruct (int_cells_type cells t Hc) as [E _]. rewrite E.
+      destruct t; reflexivity.
   - (* IntColumn.__ne__ *)
     unfold k_int_ne. destruct r as [v|vs|vs|f|t]; try contradiction.
     + cbn [inj_ref r_is_type]. rewrite (issequence_nonseq _ (RScalar v) I). cbn [bind]. cbn [inj_ref] in Hgen.
@@ -297,7 +296,7 @@ Proof.
     + change (r_is_type (inj_ref (RPred f))) with false. cbv iota.
       rewrite (issequence_nonseq _ (RPred f) I). cbn [bind].
       rewrite Hgen by (intros _; exact I). reflexivity.
-    + cbn [inj_ref r_is_type r_is_type_int]. destruct (int_cells_type cells t Hc) as [_ E]. rewrite E.
-      destruct t; try reflexivity. discriminate Hd.
+    + cbn [inj_ref r_is_type r_type_accepts_int]. destruct (int_cells_type cells t Hc) as [_ E]. rewrite E.
+      destruct t; reflexivity.
 Qed.
 
